@@ -184,6 +184,17 @@ func c01Ops(maxL int) []listOp {
 			stackage.List().Push(in.fresh())
 			return ""
 		}},
+		listOp{"options asserted once more", 0, always, func(in *listInst) string {
+			// saying again what is already the case changes nothing
+			for i := 0; i < 1; i++ {
+				in.s.SetNegativeIndices(in.m.neg)
+				in.s.SetForwardIndices(in.m.fwd)
+				if in.m.fifo {
+					in.s.SetFIFO(true)
+				}
+			}
+			return ""
+		}},
 		listOp{"Push()", 0, always, func(in *listInst) string {
 			in.s.Push()
 			return ""
